@@ -1,13 +1,19 @@
 """C08 - the layer tree mirrors the file's record order, and saving restores that order."""
 from __future__ import annotations
 
+import copy
+import io
 import itertools
 import json
+import multiprocessing
+import time
+from concurrent.futures import ProcessPoolExecutor
 from pathlib import Path
 
 import core
 import docbuild as db
 import extract_c08
+import extract_c09
 from core import err_class
 
 DIVCH = {None: "-", "OTHER": "0", "OPEN_FOLDER": "1", "CLOSED_FOLDER": "2", "BOUNDING_SECTION_DIVIDER": "3"}
@@ -300,14 +306,403 @@ def depth_outcome(roles: str) -> str:
     return "ok" if d == 0 else "AttributeError"
 
 
+
+# ---- the kind clause on SEQUENCES -------------------------------------------------------------------
+# "each layer's kind follows from its record's blocks and flags": from ITS record, whatever was opened before.
+# A base is one leaf record (a fixture record that carries a kind key, or a synthetic one); for every LayerFlags
+# field the base is taken with the field off (A) and on (B) - identical tagged blocks, different flags - and put
+#   * into ONE document in the orders SEQ_ORDERS, and
+#   * into one document per record, opened one after another in the same process, in the same orders.
+# The oracle is the table above applied to each record on its own.  The battery runs in the check's process (after
+# everything else was opened there) and in two fresh interpreters (off-first / on-first), where every block layout is
+# seen for the first time inside its own sequence.
+SEQ_ORDERS = {"off-first": ["AB", "AABA"], "on-first": ["BA", "BBA"]}
+
+
+def flag_fields():
+    """boolean fields of LayerFlags, from the attrs class (renamed / added flags are picked up)"""
+    import attr
+    from psd_tools.psd.layer_and_mask import LayerFlags
+    try:
+        return [f.name for f in attr.fields(LayerFlags) if isinstance(getattr(LayerFlags(), f.name), bool)]
+    except Exception:  # noqa
+        return ["pixel_data_irrelevant"]
+
+
+def fixture_files(max_bytes=None):
+    fs = sorted((core.REPO / "tests" / "psd_files").rglob("*.ps[db]"), key=lambda p: (p.stat().st_size, str(p)))
+    return [f for f in fs if max_bytes is None or f.stat().st_size <= max_bytes]
+
+
+def read_psd(path):
+    from psd_tools.psd import PSD
+    with open(path, "rb") as fp:
+        return PSD.read(fp)
+
+
+def harvest_bases(files):
+    """-> ([base], {id: (record, channels)}): one base per distinct tuple of block keys among the LEAF records of the
+    fixtures that carry at least one kind key"""
+    bases, objs, seen = [], {}, set()
+    for f in files:
+        rel = str(f.relative_to(core.REPO))
+        try:
+            psd = read_psd(f)
+            pairs = list(psd._iter_layers())
+        except Exception:  # noqa  (the reader is not C08's subject)
+            continue
+        for i, (r, c) in enumerate(pairs):
+            try:
+                if role_string([tok_of_record(r)]) != "L":
+                    continue
+                keys = keys_of_record(r)
+            except Exception:  # noqa
+                continue
+            if not any(k in ALL_KIND_KEYS for k in keys) or tuple(keys) in seen:
+                continue
+            seen.add(tuple(keys))
+            b = {"fixture": rel, "record": i}
+            bases.append(b)
+            objs[json.dumps(b, sort_keys=True)] = (r, c)
+    return bases, objs
+
+
+def synthetic_bases():
+    out = [{"keys": []}] + [{"keys": [k]} for k in ALL_KIND_KEYS]
+    for v in T_VECTOR[:2]:
+        out += [{"keys": [k, v]} for k in [T_FILL[0][0], T_FILL[2][0], T_ADJ[1][0], T_TYPE[0], T_SMART[0]]]
+    return out
+
+
+def materialise(base, flags, objs):
+    """a fresh (record, channels) pair of `base` with the given LayerFlags fields set"""
+    if "fixture" in base:
+        key = json.dumps({"fixture": base["fixture"], "record": base["record"]}, sort_keys=True)
+        if key not in objs:
+            psd = read_psd(core.REPO / base["fixture"])
+            objs[key] = list(psd._iter_layers())[base["record"]]
+        # a new record object with its own flags; the tagged blocks and the channel data are shared with the
+        # fixture's record (opening does not modify them), which keeps "identical blocks" literal
+        r0, c = objs[key]
+        r = copy.copy(r0)
+        r.flags = copy.copy(r0.flags)
+        for k, v in flags.items():
+            if hasattr(r.flags, k):
+                setattr(r.flags, k, bool(v))
+        return r, c
+    return db.make_record({"t": "leaf", "keys": list(base["keys"]), "flags": dict(flags)})
+
+
+def eval_sequence(seq, mode, objs):
+    """seq: [{"base": ..., "flags": {...}}]; mode "one-doc" | "docs" -> [(observed kind | "raises X", expected kind)]"""
+    from psd_tools.api.psd_image import PSDImage
+    pairs = [materialise(it["base"], it["flags"], objs) for it in seq]
+    exp = [table_kind(keys_of_record(r), r.flags.pixel_data_irrelevant) for r, _ in pairs]
+    got = []
+    try:
+        if mode == "one-doc":
+            img = PSDImage(db.make_psd([r for r, _ in pairs], [c for _, c in pairs]))
+            by = {id(l._record): l.kind for l in db.walk(img)}
+            got = [by.get(id(r), "absent from the tree") for r, _ in pairs]
+        else:
+            for r, c in pairs:
+                img = PSDImage(db.make_psd([r], [c]))
+                ls = list(db.walk(img))
+                got.append(ls[0].kind if len(ls) == 1 and ls[0]._record is r else "absent from the tree")
+    except RecursionError:
+        got = ["raises RecursionError"] * len(pairs)
+    except Exception as e:  # noqa  (library code raising on a well-nested sequence of leaves: a failing input)
+        got = ["raises " + err_class(e)] * len(pairs)
+    return list(zip(got, exp))
+
+
+def sequence_battery(which, bases, objs, flags):
+    """-> (failures [(signature, what, input, observed, expected)], number of sequences, number of records)"""
+    fails, nseq, nrec = [], 0, 0
+    for base in bases:
+        for fl in flags:
+            for order in SEQ_ORDERS[which]:
+                seq = [{"base": base, "flags": {fl: ch == "B"}} for ch in order]
+                for mode in ("one-doc", "docs"):
+                    res = eval_sequence(seq, mode, objs)
+                    nseq += 1
+                    nrec += len(res)
+                    for k, (g, e) in enumerate(res):
+                        if g != e:
+                            inp = {"sequence": seq, "mode": mode, "position": k}
+                            if g.startswith("raises"):
+                                fails.append(("C08/kind-sequence/%s" % g.replace(" ", "-"),
+                                              "opening a sequence of leaf records raises", inp, g, e))
+                            else:
+                                fails.append(("C08/kind-sequence/%s-reported-as-%s" % (e, g),
+                                              "a layer's kind does not follow from its OWN record's blocks and flags "
+                                              "(records with the same blocks and other flags were opened before it)",
+                                              inp, [x for x, _ in res], [x for _, x in res]))
+                            break
+    return fails, nseq, nrec
+
+
+def sequence_worker(arg):
+    """fresh interpreter: harvest, then the battery of one order"""
+    which, max_bytes = arg
+    import logging
+    import warnings
+    logging.disable(logging.CRITICAL)
+    warnings.simplefilter("ignore")
+    try:
+        bases, objs = harvest_bases(fixture_files(max_bytes))
+        fails, nseq, nrec = sequence_battery(which, synthetic_bases() + bases, objs, flag_fields())
+        return {"which": which, "fails": fails[:40], "nfail": len(fails), "sequences": nseq, "records": nrec,
+                "bases": len(bases)}
+    except Exception as e:  # noqa  (library code raised while a case was being prepared: reported by the parent)
+        import traceback
+        tb = traceback.extract_tb(e.__traceback__)
+        return {"which": which, "error": "%s: %s" % (type(e).__name__, str(e)[:200]),
+                "in_repo": any(str(core.REPO) in fr.filename for fr in tb),
+                "tail": ["%s:%d %s" % (fr.filename, fr.lineno, fr.name) for fr in tb[-4:]]}
+
+
+def run_sequences(ctx, quick):
+    t0 = time.time()
+    max_bytes = 1_000_000 if quick else None
+    pool = ProcessPoolExecutor(2, mp_context=multiprocessing.get_context("spawn"))
+    futs = [pool.submit(sequence_worker, (w, max_bytes)) for w in ("off-first", "on-first")]
+    bases, objs = harvest_bases(fixture_files(max_bytes))
+    allb = synthetic_bases() + bases
+    flags = flag_fields()
+    tot_seq = tot_rec = 0
+    for which in ("off-first", "on-first"):
+        fails, nseq, nrec = sequence_battery(which, allb, objs, flags)
+        tot_seq += nseq
+        tot_rec += nrec
+        for sig, what, inp, obs, exp in fails:
+            ctx.fail(sig, what, dict(inp, process="the check's own process"), obs, exp)
+    for fu in futs:
+        try:
+            r = fu.result(timeout=600)
+        except Exception as e:  # noqa
+            raise core.Infra("sequence worker did not answer: %r" % (e,))
+        if "error" in r:
+            if r.get("in_repo"):
+                ctx.disagree("the implementation raised inside the sequence battery (%s): %s" % (r["which"], r["error"]),
+                             {"traceback_tail": r["tail"]})
+                continue
+            raise core.Infra("sequence worker failed: %s %s" % (r["error"], r["tail"]))
+        tot_seq += r["sequences"]
+        tot_rec += r["records"]
+        for sig, what, inp, obs, exp in r["fails"]:
+            ctx.fail(sig, what, dict(inp, process="fresh interpreter, order " + r["which"]), obs, exp)
+        for _ in range(max(0, r["nfail"] - len(r["fails"]))):
+            ctx.fail(r["fails"][0][0], "", None)
+    pool.shutdown()
+    for b in allb:
+        ctx.count(("kind-sequence", json.dumps(b, sort_keys=True)), nontrivial=True)
+    ctx.corr_cases += tot_seq
+    ctx.hist("stream", "kind-sequence", tot_seq)
+    ctx.extra["kind_sequences"] = {"bases_from_fixtures": len(bases), "synthetic_bases": len(allb) - len(bases),
+                                   "flags_toggled": flags, "orders": SEQ_ORDERS, "modes": ["one-doc", "docs"],
+                                   "sequences": tot_seq, "records_judged": tot_rec,
+                                   "processes": ["check process", "fresh interpreter off-first", "fresh interpreter on-first"],
+                                   "seconds": round(time.time() - t0, 1)}
+    return flags
+
+
+# ---- the same records in every place the reader may look ------------------------------------------
+# (where the records are, which other place is present but empty); "ordinary" = layer_and_mask_information.layer_info
+PLACES = [("ordinary", None), ("ordinary", "LAYER_16"), ("ordinary", "LAYER_32"), ("LAYER_16", None),
+          ("LAYER_32", None), ("LAYER_16", "LAYER_32"), ("LAYER_32", "LAYER_16")]
+DEPTHS = (8, 16, 32)
+VERSIONS = (1, 2)
+
+
+def place_name(place):
+    return place[0] + ("+empty-" + place[1] if place[1] else "")
+
+
+def relocate(psd, depth, version, place):
+    """The document `psd` (a psd_tools.psd.PSD, consumed) with header depth / version set and its records moved to
+    `place`, written with the library's writer -> bytes."""
+    from psd_tools.constants import Tag
+    from psd_tools.psd.layer_and_mask import LayerInfo, LayerInfoBlock
+    from psd_tools.psd.tagged_blocks import TaggedBlock, TaggedBlocks
+    lam = psd.layer_and_mask_information
+    pairs = stored_pairs(psd) or []
+    recs = [r for r, _ in pairs]
+    chans = [c for _, c in pairs]
+    if lam.tagged_blocks is None:
+        lam.tagged_blocks = TaggedBlocks()
+    for k in (Tag.LAYER_16, Tag.LAYER_32):
+        if k in lam.tagged_blocks:
+            del lam.tagged_blocks[k]
+    where, empty = place
+    from psd_tools.psd.layer_and_mask import ChannelImageData, LayerRecords
+
+    def info(cls, rs, cs):
+        return cls(layer_count=len(rs), layer_records=LayerRecords(list(rs)), channel_image_data=ChannelImageData(list(cs)))
+
+    blocks = []
+    if where == "ordinary":
+        lam.layer_info = info(LayerInfo, recs, chans)
+    else:
+        lam.layer_info = LayerInfo()
+        blocks.append((Tag[where], info(LayerInfoBlock, recs, chans)))
+    if empty:
+        blocks.append((Tag[empty], info(LayerInfoBlock, [], [])))
+    # Photoshop writes Lr16 / Lr32 as the first block of the section
+    old = list(lam.tagged_blocks.items())
+    for k, _ in old:
+        del lam.tagged_blocks[k]
+    for k, d in sorted(blocks, key=lambda kd: kd[0].name):
+        lam.tagged_blocks[k] = TaggedBlock(key=k, data=d)
+    for k, v in old:
+        lam.tagged_blocks[k] = v
+    psd.header.depth = depth
+    psd.header.version = version
+    buf = io.BytesIO()
+    psd.write(buf)
+    return buf.getvalue()
+
+
+def stored_pairs(psd):
+    """the (record, channels) pairs of the one place of `psd` that holds records (harness-side reading of the three
+    places; [] when none does, None when more than one does)"""
+    from psd_tools.constants import Tag
+    lam = psd.layer_and_mask_information
+    found = []
+    cands = [lam.layer_info]
+    tb = lam.tagged_blocks
+    if tb is not None:
+        for k in (Tag.LAYER_16, Tag.LAYER_32):
+            if k in tb:
+                cands.append(tb.get_data(k))
+    for li in cands:
+        rs = getattr(li, "layer_records", None)
+        cs = getattr(li, "channel_image_data", None)
+        if rs is not None and cs is not None and len(rs):
+            found.append(list(zip(rs, cs)))
+    if len(found) > 1:
+        return None
+    return found[0] if found else []
+
+
+def placement_case(path, depth, version, place):
+    """-> dict(outcome=..., ...) : build the relocated file, read it back, open it"""
+    from psd_tools.api.psd_image import PSDImage, _build_record_tree
+    from psd_tools.psd import PSD
+    try:
+        data = relocate(read_psd(path), depth, version, place)
+        psd2 = PSD.read(io.BytesIO(data))
+    except Exception as e:  # noqa  (writer / reader, not C08's subject: C01 / C02 / C03 own them)
+        return {"outcome": "not-built", "cls": err_class(e)}
+    pairs = stored_pairs(psd2)
+    if not pairs:
+        return {"outcome": "not-built", "cls": "records not found in the re-read file" if pairs is not None else "two places hold records"}
+    recs = [r for r, _ in pairs]
+    chans = [c for _, c in pairs]
+    toks = [tok_of_record(r) for r in recs]
+    try:
+        img = PSDImage(psd2)
+        obs = observe_image(img, recs, chans)
+    except RecursionError:
+        obs = {"outcome": "err", "cls": "RecursionError"}
+    except Exception as e:  # noqa
+        obs = {"outcome": "err", "cls": err_class(e)}
+    obs["toks"] = toks
+    obs["bytes"] = len(data)
+    return obs
+
+
+def pick_placement_fixtures(quick):
+    """small fixtures by what they are, not by name: per (depth, version) of the ORIGINAL file the smallest ones with
+    at least two records, those with a group first"""
+    by = {}
+    for f in fixture_files(300_000):
+        try:
+            psd = read_psd(f)
+            pairs = stored_pairs(psd)
+        except Exception:  # noqa
+            continue
+        if not pairs or len(pairs) < 2:
+            continue
+        roles = role_string([tok_of_record(r) for r, _ in pairs])
+        if depth_outcome(roles) != "ok":
+            continue
+        by.setdefault((psd.header.depth, psd.header.version), []).append(("B" not in roles, f.stat().st_size, str(f), f))
+    out = []
+    for key in sorted(by):
+        lst = sorted(by[key])
+        out += [x[3] for x in lst[:(2 if quick else 12)]]
+    return out
+
+
+def run_placements(ctx, drv, quick):
+    t0 = time.time()
+    files = pick_placement_fixtures(quick)
+    shadow_sig = {}
+    ncase = 0
+    mreq, mexp = [], []
+    for f in files:
+        rel = str(f.relative_to(core.REPO))
+        for depth in DEPTHS:
+            for version in VERSIONS:
+                for place in PLACES:
+                    obs = placement_case(f, depth, version, place)
+                    brief = {"fixture": rel, "depth": depth, "version": version, "place": list(place)}
+                    ctx.hist("placement", place_name(place) + ":" + obs["outcome"])
+                    if obs["outcome"] == "not-built":
+                        ctx.hist("placement_not_built", obs["cls"])
+                        continue
+                    ncase += 1
+                    ctx.corr_cases += 1
+                    roles = role_string(obs["toks"])
+                    ctx.count(("placement", rel, depth, version, place_name(place)), nontrivial=True)
+                    n = len(obs["toks"])
+                    # model: Reopen.storedPayloads on the three places (n records in `where`, 0 in `empty`, absent else)
+                    # (the ordinary layer info is always present: LayerInfo() when the records are elsewhere)
+                    slot = ["0", "-", "-"]
+                    idx = {"ordinary": 0, "LAYER_16": 1, "LAYER_32": 2}
+                    slot[idx[place[0]]] = str(n)
+                    if place[1]:
+                        slot[idx[place[1]]] = "0"
+                    mreq.append(("tree.stored", *slot))
+                    seen = len(obs["flat_r"]) if obs["outcome"] == "ok" else None
+                    mexp.append((brief, place, n, seen, obs))
+                    if obs["outcome"] != "ok":
+                        ctx.fail("C08/placement/%s/open-raises-%s" % (place_name(place), obs["cls"]),
+                                 "a document whose (well-nested) records sit in this place of the layer section cannot be opened",
+                                 brief, obs["cls"], "a tree over the %d records" % n)
+                        continue
+                    if obs["flat_r"] != list(range(n)):
+                        what = "lost" if len(obs["flat_r"]) < n else "duplicated" if len(obs["flat_r"]) > n else "reordered"
+                        ctx.fail("C08/placement/%s/records-%s" % (place_name(place), what),
+                                 "the records of the file are not the records of the opened tree", brief,
+                                 {"records_in_the_tree": len(obs["flat_r"]), "flatten": obs["flat_r"][:20]},
+                                 "all %d records of the file, in file order" % n)
+                        continue
+                    check_property(ctx, obs, roles, brief)
+    if mreq:
+        for (brief, place, n, seen, obs), a in zip(mexp, drv.batch(mreq)):
+            if a[0] != "ok":
+                raise core.Infra("driver: " + "\t".join(a))
+            m_n = 0 if a[2] == "-" else len(a[2].split(" "))
+            if seen is not None and m_n != seen:
+                ctx.disagree("number of records the reader finds differs from the model (Reopen.storedPayloads)",
+                             dict(brief, model_slot=a[1], model=m_n, impl=seen))
+    ctx.extra["placements"] = {"fixtures": [str(f.relative_to(core.REPO)) for f in files], "depths": list(DEPTHS),
+                               "versions": list(VERSIONS), "places": [place_name(p) for p in PLACES], "cases": ncase,
+                               "seconds": round(time.time() - t0, 1)}
+
+
 # ---- the check -------------------------------------------------------------------------------------
 def run(ctx: core.Run):
     gen = ctx.regenerate(extract_c08.gen_tree_kinds)
+    gen_r = ctx.regenerate(extract_c09.gen_reopen)      # where the reader looks for the records (shared with C09)
     ctx.prove(["PsdVerif.Props.C08"])
     ctx.trusted_base += [
         "Lean 4.33 kernel; axioms allowed: propext, Classical.choice, Quot.sound (audited per theorem)",
         "Model/TreeParse.lean is a hand transliteration of PSDImage._init / _build_record_tree; tied by this run's correspondence check",
-        "harness/extract_c08.py: AST reader of _init (dispatch chain, key lists, divider kinds) and dump of api.adjustments.TYPES",
+        "harness/extract_c08.py: AST reader of _init (dispatch chain, key lists, divider kinds; flags / tags / mutable state read by "
+        "the dispatch closure) and dump of api.adjustments.TYPES; harness/extract_c09.py: AST reader of PSD._get_layer_info",
         "harness/docbuild.py: builds psd_tools.psd.PSD structures in memory; object identity <-> payload ids by position",
         "payload opacity: a record and its channel list are one id in the model (the code moves them in parallel; checked by `is` on both lists)",
     ]
@@ -468,28 +863,62 @@ def run(ctx: core.Run):
         fixtures = sorted(fixtures, key=lambda p: p.stat().st_size)[:30]
     run_fixtures(ctx, drv, fixtures)
 
+    # ---- kinds on sequences (same blocks, other flags; one document and documents opened one after another)
+    toggled = run_sequences(ctx, quick)
+    reads = gen["reads"] or {}
+    not_toggled = [f for f in (reads.get("flags") or []) if f not in toggled]
+    if not_toggled:
+        ctx.disagree("the dispatch reads record flags that are not fields of LayerFlags (not toggled by the sequence battery)",
+                     {"flags_read": reads.get("flags"), "LayerFlags": toggled})
+
+    # ---- the same records in every place the reader may look x depth x version
+    run_placements(ctx, drv, quick)
+
     ctx.rule = (
         "every well-nested sequence of <= %d records (%d bracketings) x 48 uniform divider variants (open/closed folder x "
         "key in lsct/lsdk/both/lsdk-over-OTHER x bounding key variant x artboard) and x all 2^n clipping assignments, mixed "
         "per-group variants; every (lsct kind, lsdk kind, artboard) combination of one record in four contexts; random trees "
         "(depth <= 8, <= 60 records) and deep chains; malformed: every sequence over L/B/C of length <= %d and random longer "
         "ones; kinds: every single key and pair of kind keys x pixel_data_irrelevant, random larger subsets; fixtures: %d files. "
+        "KIND ON SEQUENCES: every leaf record of every fixture (<= 1 MB in the quick tier) that carries a kind key, one per "
+        "distinct block layout (%d), and %d synthetic ones (every single kind key, vector key x fill / adjustment / type / "
+        "smart-object key), each taken with every LayerFlags field off (A) and on (B) - identical blocks, other flags - in the "
+        "orders AB, AABA, BA, BBA, in ONE document and in documents opened one after another in the same process; judged "
+        "record by record against the kind table; run in the check's process and in two fresh interpreters (off-first, "
+        "on-first). PLACEMENT: %d fixtures (the smallest well-nested ones per original depth and version, groups first) x "
+        "depth 8/16/32 x PSD/PSB x the records in the ordinary layer info, in Lr16, in Lr32, each alone and next to an empty "
+        "other block (7 layouts), rebuilt with the library's low-level classes, written, read back, opened: the tree must "
+        "hold exactly the file's records (then every clause above). "
         "A tree case is non-trivial when it contains a divider record; distinct = distinct recipes."
-        % (nmax, nb, mmax, len(fixtures)))
+        % (nmax, nb, mmax, len(fixtures), ctx.extra["kind_sequences"]["bases_from_fixtures"],
+           ctx.extra["kind_sequences"]["synthetic_bases"], len(ctx.extra["placements"]["fixtures"])))
     ctx.notes += [
         "in Python a group is appended to its parent's list when pushed and filled while on the stack; the model appends the "
         "finished group when it is popped (same list: nothing else is appended to the parent in between) - checked by correspondence",
         "a never-closed group makes the constructor fail in _compute_clipping_layers (AttributeError on _record None), a closing "
         "record at depth 0 fails the `assert not isinstance(layer, PSDImage)`; both are modelled and proved (parse_outcome)",
     ]
+    ctx.notes += [
+        "the kind clause is evaluated on sequences (same blocks, other flags; one document, documents opened one after another, "
+        "both orders, fresh interpreters): the model's kindOf is a function of one record, and dispatch_reads_tied states from "
+        "the AST that the source reads nothing else and keeps no state (flags read: %s; state touched: %s)"
+        % ((gen["reads"] or {}).get("flags"), (gen["reads"] or {}).get("state")),
+        "records_found_iff: with the records in one place of the layer section and none elsewhere, the reader finds them iff no "
+        "block it prefers is present; an EMPTY Lr16 / Lr32 block hides records kept elsewhere (empty_block_shadows, three "
+        "layouts, replayed on the real code by the placement battery: known findings). The accessor reads neither depth nor "
+        "version (records_location_tied), the battery still runs every depth x version.",
+    ]
     ctx.exhaustive = True
     ctx.model_coverage = {
         "modelled": ["_init loop (push/pop/append, assertion on popping the document, Artboard._move re-typing)",
                      "failure of _compute_clipping_layers on a never-closed group", "_build_record_tree", "classification by lsct/lsdk",
-                     "kind dispatch chain and api.adjustments.TYPES (regenerated)"],
+                     "kind dispatch chain and api.adjustments.TYPES (regenerated)",
+                     "PSD._get_layer_info / _iter_layers: which of layer_info, Lr16, Lr32 feeds _init (Model/Reopen.lean Sections, shared with C09)"],
         "opaque": ["record and channel payloads (an id)", "_update_record's choice of LayerInfo container (C09)"],
     }
-    ctx.extra["generated_tables"] = {"chain": gen["init"]["chain"], "registry_keys": [e["key"] for e in gen["registry"]]}
+    ctx.extra["generated_tables"] = {"chain": (gen["init"] or {}).get("chain"),
+                                     "registry_keys": [e["key"] for e in (gen["registry"] or [])],
+                                     "dispatch_reads": gen["reads"], "reader": gen_r["reader"]}
     if ctx.tier == "thorough":
         ctx.recheck(["PsdVerif.Props.C08"])
 
@@ -565,6 +994,20 @@ def replay(ctx, data):
         if obs["outcome"] == "ok":
             print("flatten (record ids):", obs["flat_r"], "(channel ids):", obs["flat_c"])
             print("kinds:", [l.kind for l in db.walk(obs["img"])])
+    elif "sequence" in inp:
+        res = eval_sequence(inp["sequence"], inp.get("mode", "one-doc"), {})
+        for it, (g, e) in zip(inp["sequence"], res):
+            print("record", json.dumps(it["base"]), "flags", it["flags"], "-> kind", g, "| table:", e, "" if g == e else "  <-- differs")
+        if inp.get("process", "").startswith("fresh"):
+            print("(found in a fresh interpreter; this replay process is fresh as well)")
+    elif "place" in inp:
+        obs = placement_case(core.REPO / inp["fixture"], inp["depth"], inp["version"], tuple(inp["place"]))
+        print("records put in:", place_name(tuple(inp["place"])), "depth", inp["depth"], "version", inp["version"])
+        print("file: %s bytes; records in the file: %d; outcome: %s" % (obs.get("bytes"), len(obs.get("toks", [])), obs["outcome"]))
+        if obs["outcome"] == "ok":
+            print("tree:", obs["forest"], "| flatten (record ids):", obs["flat_r"])
+        else:
+            print("class:", obs.get("cls"))
     elif "fixture" in inp:
         from psd_tools import PSDImage
         img = PSDImage.open(core.REPO / inp["fixture"])
